@@ -12,6 +12,7 @@ import hashlib
 import io
 import json
 import os
+import tempfile
 import re
 import stat as statmod
 import sys
@@ -1609,7 +1610,40 @@ def extra(rng, tier):
             violations.append({"line": "extra nested-router seed=%d depth=%d path=%s" % (seed, depth, enc(path)),
                                "out": "W %s | A %s" % (out_w, out_a),
                                "why": "nested Router/Subpaths application answers differently: WSGI %s, ASGI %s" % (out_w[:80], out_a[:80])})
-    return {"violations": violations, "nested_router_apps_compared": checked}
+    # one response object answering a SEQUENCE of requests (a response is an application; a FileResponse mounted in
+    # a Router lives as long as the process): whatever earlier requests left behind on it, the two interfaces
+    # must still answer every request alike
+    reused = 0
+    tmp = os.path.join(tempfile.gettempdir(), "baize-verif-c04-reuse.txt")
+    with open(tmp, "wb") as f:
+        f.write(b"0123456789abcdefghij")
+    sequences = [
+        [None, "bytes=0-4", None, "bytes=0-1,5-6", None, "bytes=2-3"],
+        ["bytes=0-1,5-6", None],
+        ["bytes=0-1,5-6", "bytes=7-8", "bytes=99-", None, "bytes=x"],
+        ["bytes=-3", "bytes=99-", None],
+    ]
+    saved = (wsgi_responses.random_choices, asgi_responses.random_choices)
+    wsgi_responses.random_choices = asgi_responses.random_choices = _fixed_choices
+    try:
+        for method in ("GET", "HEAD"):
+            for seq in sequences:
+                wresp, aresp = W.FileResponse(tmp), A.FileResponse(tmp)
+                for i, rg in enumerate(seq):
+                    rq = req(method=method, path="/", headers=[("Range", rg)] if rg else [])
+                    out_w = _run_prebuilt_wsgi(wresp, rq)
+                    out_a = _run_prebuilt_asgi(aresp, rq)
+                    reused += 1
+                    if out_w != out_a:
+                        violations.append({
+                            "line": "extra reuse FileResponse %s ranges=%s request=%d" % (method, "|".join(x or "-" for x in seq), i),
+                            "out": "W %s | A %s" % (out_w, out_a),
+                            "why": "request %d (Range: %s) on a FileResponse object that already answered %s: WSGI %s, ASGI %s"
+                                   % (i + 1, rg, [x or "no Range" for x in seq[:i]], out_w[:120], out_a[:120])})
+                        break
+    finally:
+        wsgi_responses.random_choices, asgi_responses.random_choices = saved
+    return {"violations": violations, "nested_router_apps_compared": checked, "reused_response_requests_compared": reused}
 
 
 def _run_prebuilt_wsgi(app, rq):
